@@ -425,7 +425,11 @@ class AcctSim(object):
         bid, ask = op["bid"], op["ask"]
         L = self.L
         old_liq = L.liq_side(i)
-        self.ex.process_EventNBBO(EventNBBO(self.t, self.contracts[i], bid, ask))
+        # (stamp_back_s: a late print - the quote carries a stamp older than the executor's clock, e.g. older than the
+        #  discontinuation that was processed before it)
+        self.ex.process_EventNBBO(EventNBBO(self.t - timedelta(seconds=op.get("stamp_back_s", 0)), self.contracts[i], bid, ask))
+        if op.get("stamp_back_s"):
+            self.fault("quote_with_an_older_stamp")
         if L.alive[i]:
             L.book[i] = (bid, ask)
         else:
